@@ -7,7 +7,7 @@
 From Coq Require Import List NArith Bool.
 From NV Require Import Syntax.Token Syntax.Ast Syntax.StmtAst Syntax.StrEsc Syntax.Parser Syntax.Grammar
      Syntax.StrEscProofs Syntax.TypedPrinter Syntax.TypedPrinterProofs Syntax.FixedPoint
-     Syntax.TypeGrammar Syntax.StmtGrammar Syntax.DefEcho.
+     Syntax.TypeGrammar Syntax.StmtGrammar Syntax.DefEcho Syntax.Lexer Syntax.LexString Syntax.TypedPrinterSep.
 Import ListNotations.
 Local Open Scope N_scope.
 
@@ -34,6 +34,16 @@ Theorem C15_roundtrip_exact : forall e : texpr,
 Proof. exact echo_roundtrip_exact. Qed.
 Print Assumptions C15_roundtrip_exact.
 
+(* Digit separators: the restriction of C15_roundtrip_exact to literals without `_` is not needed for
+   the meaning: for every printable expression without temperature sugar the echo is read back as the
+   tree it was elaborated from up to the digit separators of its literals (`strip_us`; the value of a
+   literal does not depend on them). *)
+Theorem C15_roundtrip_sep : forall e : texpr,
+  printable_t e = true -> nosugar_t e = true ->
+  exists u, parse (pp e) = Ok [StExpr u] [] /\ strip_us u = strip_us (erase e).
+Proof. exact echo_roundtrip_sep. Qed.
+Print Assumptions C15_roundtrip_sep.
+
 (* The fixed-point clause: reading the echo back and elaborating it again (in a session in which
    the same names are units resp. functions: `lift is_unit is_fn`) gives a tree with the same echo.
    Partial: expressions without temperature sugar, digit separators and negative literals. *)
@@ -42,6 +52,30 @@ Theorem C15_fixed_point_partial : forall (is_unit is_fn : str -> bool) (e : texp
   exists u, parse (pp e) = Ok [StExpr u] [] /\ pp (lift is_unit is_fn u) = pp e.
 Proof. exact echo_fixed_point. Qed.
 Print Assumptions C15_fixed_point_partial.
+
+(* From text to token: the text the printer writes for ANY string s, quote + escape_numbat_string s +
+   quote, is lexed by the tokenizer model (any Unicode classes, any scope stack; not directly after a
+   string / identifier inside an interpolation) as exactly one StringFixed token with that lexeme; the
+   parts of an echoed interpolated string are exactly one StringInterpolationStart / End token
+   (Middle: Syntax/LexString.v).  With C15_string_escape: text -> token -> the original string. *)
+Theorem C15_lex_string_echo : forall (xid_start xid_continue : N -> bool) (d : list bool) (la : option token) (s rest : str),
+  inside_interpolation d && last_ends_string la = false ->
+  scan_single_token xid_start xid_continue d la (34 :: escape_numbat_string s ++ 34 :: rest)
+  = LOk (Some (TString (34 :: escape_numbat_string s ++ [34])), rest, d).
+Proof. exact lex_string_echo. Qed.
+Print Assumptions C15_lex_string_echo.
+
+Theorem C15_lex_interp_echo : forall (xid_start xid_continue : N -> bool) (d : list bool) (la : option token) (s rest : str),
+  (inside_interpolation d && last_ends_string la = false -> peek_is (fun x => x =? 123) rest = false ->
+   scan_single_token xid_start xid_continue d la (34 :: escape_numbat_string s ++ 123 :: rest)
+   = LOk (Some (TInterpStart (34 :: escape_numbat_string s ++ [123])), rest, true :: d))
+  /\ (inside_interpolation d = true ->
+      scan_single_token xid_start xid_continue d la (125 :: escape_numbat_string s ++ 34 :: rest)
+      = LOk (Some (TInterpEnd (125 :: escape_numbat_string s ++ [34])), rest, tl d)).
+Proof.
+  intros. split; [apply lex_interp_start_echo|apply lex_interp_end_echo].
+Qed.
+Print Assumptions C15_lex_interp_echo.
 
 (* Decorators: the echo of every decorator (decorator_markup: name / url / description / example with their strings quoted by
    escape_numbat_string, aliases with their accepts annotations, the prefix decorators), whatever strings and alias lists it carries, is
@@ -142,4 +176,21 @@ Example C15_ex_definition_echo :
                  TNumber [49]; TPlus; TNumber [50]]%N
   /\ parse (pp_def e) = Ok [StLet (mk_defvar [118]%N (Some (TAExp (TEIdent [83; 99; 97; 108; 97; 114]%N []))) ds
                                    (EBin Add (EScalar [49]%N) (EScalar [50]%N)))] [].
+Proof. vm_compute. repeat split; reflexivity. Qed.
+
+(* an interpolated string with a quote, a brace and a newline in its fixed parts and format
+   specifiers: its echo is read back as the same parts, and the echo is a fixed point *)
+Example C15_ex_interpolated_string :
+  let e := XInterp [113; 34; 123]%N
+             [(XBin Add (x_ 97) (n_ 49), Some [58; 46; 50; 102]%N, [10]%N); (XString [125]%N, None, []%N)] in
+  printable_t e = true /\ exact_t e = true
+  /\ pp e = [TInterpStart [34; 113; 92; 34; 123; 123; 123]; TIdent [97]; TPlus; TNumber [49];
+             TInterpSpec [58; 46; 50; 102]; TInterpMiddle [125; 92; 110; 123];
+             TString [34; 125; 125; 34]; TInterpEnd [125; 34]]%N
+  /\ parse (pp e) = Ok [StExpr (EInterp [PFixed [113; 34; 123]%N;
+                                          PExpr (EBin Add (EIdent [97]%N) (EScalar [49]%N)) (Some [58; 46; 50; 102]%N);
+                                          PFixed [10]%N; PExpr (EString [125]%N) None])] []
+  /\ erase e = EInterp [PFixed [113; 34; 123]%N;
+                        PExpr (EBin Add (EIdent [97]%N) (EScalar [49]%N)) (Some [58; 46; 50; 102]%N);
+                        PFixed [10]%N; PExpr (EString [125]%N) None].
 Proof. vm_compute. repeat split; reflexivity. Qed.
